@@ -320,11 +320,23 @@ impl ShardSplitter {
     async fn run_cutover(&self, progress: &mut SplitProgress) -> Result<()> {
         let old_shard = &progress.old_shard.clone();
 
-        let split_state = self
-            .metadata
-            .get_split_state(old_shard)
-            .await?
-            .ok_or_else(|| crate::Error::Internal("No split in progress".to_string()))?;
+        let split_state = match self.metadata.get_split_state(old_shard).await? {
+            Some(state) => state,
+            None if progress.shard_a_created
+                && progress.shard_b_created
+                && progress.old_shard_deactivated =>
+            {
+                // Every cut-over step is recorded, so an earlier attempt got as
+                // far as complete_split (the only thing that removes the split
+                // state) and stopped before the phase itself was recorded.
+                info!(
+                    "Cutover already complete (fence={}), split state already removed",
+                    progress.fence_token
+                );
+                return Ok(());
+            }
+            None => return Err(crate::Error::Internal("No split in progress".to_string())),
+        };
 
         if split_state.new_shards.len() != 2 {
             return Err(crate::Error::Internal(format!(
